@@ -78,8 +78,9 @@ CASEVAR = {s: _case_pool(s) for s in TABLES}
 
 LOWER_SYM = {s: {k.lower() for k in TABLES[s]} for s in TABLES}
 
-UNICODE_UNK = [u for u in ['gène_β', 'zz unknown', 'zz,unknown', 'NA', 'nan', '0', '12345', 'unmapped_0', 'Gene-X/y']
+UNICODE_UNK = [u for u in ['gène_β', 'zz unknown', 'zz,unknown', 'NA', 'nan', '0', '12345', 'unmapped_0', 'Gene-X(y)']
                if u not in EVERY_NAME]
+SLASH_UNK = ['Gene-X/y', 'a/b/c']
 
 # values aimed at the edges of the integer types (the value itself or its rounding crosses an edge)
 BOUNDARY = [
@@ -134,13 +135,18 @@ def expand_x(xs, n, m):
 # ----------------------------------------------------------------------------- names
 KIND_SETS = {
     'mixed': ['ens_known', 'ens_rand', 'ensv_known', 'ensv_rand', 'sym', 'sym', 'sym_dot', 'unk_plain', 'unk_case',
-              'unk_dot', 'unk_odd', 'sym_odd'],
+              'unk_dot', 'unk_odd'],
     'all_ens': ['ens_known', 'ens_rand'],
     'ens_versioned': ['ens_known', 'ensv_known', 'ensv_rand'],
     'sym_only': ['sym', 'sym', 'sym_dot'],
     'ens_unk': ['ens_known', 'unk_plain', 'unk_case', 'unk_odd'],
     'sym_unk': ['sym', 'unk_plain', 'unk_case', 'unk_dot'],
 }
+
+
+def _rarely(n):
+    """True with probability 1/n (st.integers is biased towards its bounds, sampled_from is not)"""
+    return st.sampled_from([False] * (n - 1) + [True])
 
 
 @st.composite
@@ -175,6 +181,8 @@ def one_name(draw, species, kind):
         return cand if cand not in EVERY_NAME else 'zz_unknown_dot'
     if kind == 'unk_odd':
         return draw(st.sampled_from(UNICODE_UNK))
+    if kind == 'unk_slash':
+        return draw(st.sampled_from(SLASH_UNK))
     raise ValueError(kind)
 
 
@@ -221,7 +229,15 @@ def gene_lists(draw, species, mapper, max_genes=9):
                                     'sym_only', 'ens_unk', 'sym_unk']))
     n = draw(st.integers(1, max_genes))
     kinds = KIND_SETS[profile]
-    names = [draw(one_name(species, draw(st.sampled_from(kinds)))) for _ in range(n)]
+    names = []
+    for _ in range(n):
+        kind = draw(st.sampled_from(kinds))
+        # rare: names with characters that are special to HDF5 / CSV ('THRA1/BTR', 'Gt(ROSA)26Sor', 'Gene-X/y')
+        if kind == 'sym' and draw(_rarely(25)):
+            kind = 'sym_odd'
+        elif kind == 'unk_odd' and draw(_rarely(8)):
+            kind = 'unk_slash'
+        names.append(draw(one_name(species, kind)))
     names = _dedupe(species, names)
     # input-domain rule: >=1 Ensembl id or known symbol; with an inferred mapper >=1 *known* name
     need_known = mapper == 'inferred'
@@ -282,11 +298,9 @@ def layouts(draw, enc):
         if k == 0:
             return 'default'
         return [draw(st.integers(1, 4)), draw(st.integers(1, 4))]
-    k = draw(st.integers(0, 8))
-    if k <= 2:
-        return 'default'
-    if k == 3:
-        return 'contiguous'
+    k = draw(st.sampled_from(['default'] * 4 + ['chunked'] * 7 + ['contiguous']))
+    if k != 'chunked':
+        return k
     return draw(st.integers(1, 6))
 
 
@@ -339,7 +353,7 @@ def cases(draw, tier='quick'):
     profile, genes = draw(gene_lists(species, mapper))
     n_cells = draw(st.integers(1, 8))
     cells = draw(cell_ids(n_cells))
-    fault = draw(st.sampled_from(FAULTS)) if draw(st.integers(0, 5)) == 0 else None
+    fault = draw(st.sampled_from(FAULTS)) if draw(_rarely(6)) else None
     if fault is not None:
         genes, cells = _apply_fault(draw, fault, species, genes, cells)
     enc = draw(st.sampled_from(['csr', 'csc', 'dense']))
@@ -369,9 +383,10 @@ def aimed_specs(tier):
     genes = {'mouse': ['Xkr4', 'ENSMUSG00000025900', 'zz_unknown_1', 'ENSMUSG00000033845.7', 'xkr4'],
              'human': ['A1BG', 'ENSG00000175899', 'zz_unknown_1', 'ENSG00000148584.15', 'a1bg']}
     k = 0
-    dtypes = ['float64'] if tier == 'quick' else ['float64', 'float32']
-    for dtype in dtypes:
+    for dtype in ['float64', 'float32']:
         for b in BOUNDARY:
+            if tier == 'quick' and dtype == 'float32' and abs(b) < 2.0**31 - 2:
+                continue        # float32 cannot tell these from their float64 neighbours in an interesting way
             for enc in ('csr', 'csc', 'dense'):
                 layer_opts = [None, 'counts'] if tier != 'quick' else [None if k % 2 == 0 else 'counts']
                 for layer in layer_opts:
